@@ -59,6 +59,11 @@ CHECKS = {
          "Every dataclass field of every node kind (incl. named results, traced calls, loopy calls, CSR, send/recv) is mutated reflectively in several graph contexts; the mutant must be unequal in both directions at the node and at every ancestor, rebuilt copies and mapping-order variants must be equal with equal hashes, unpickled graphs in a fresh interpreter with another PYTHONHASHSEED must equal the graph rebuilt there, hash equally and carry no cached _hash_value.",
          "non_equality_tags (documented) and the derived tags/axes of NamedCallResult are exempt. loopy's TranslationUnit hash is trusted base (it is not stable across pickling; attributed, not reported).",
          "DESIGN.md §3 C04"),
+ "C18": ("exploration",
+         "collision/stability monitor on the real key builder: keys of rebuilt, unpickled and cross-process (distinct PYTHONHASHSEED) copies must coincide; keys of every reflective one-field mutant and of wrapped-data variants (one element, dtype with identical bytes, shape with identical bytes, views) must differ",
+         "The C04 corpus and mutator drive PytatoKeyBuilder: for each graph the key is computed here, for a rebuilt copy, after pickling, and in 3-8 child interpreters with different hash seeds (built there and unpickled there); every (node kind, field) mutant substituted into the root graph must change the key; data-wrapper variants check contents, dtype and shape sensitivity and insensitivity to memory layout.",
+         "Creation-traceback tagging off (default). Injectivity is observed on one-component differences only.",
+         "DESIGN.md §3 C18"),
 }
 
 NOT_YET = {
